@@ -118,7 +118,10 @@ def run_property(prop, tier, seed, only=None, jobs=None, verbose=True):
       text = ''
       if c.replay is not None and f.witness is not None:
         try:
-          reproduced, text = c.replay(f.witness)
+          wit = f.witness
+          if isinstance(wit, dict):
+            wit = dict(wit, _key=f.key, _obligation=f.obligation, _tier=tier, _seed=seed, _prop=prop)
+          reproduced, text = c.replay(wit)
           reproduced = bool(reproduced)
           text = str(text)
         except Exception:  # pylint: disable=broad-except
@@ -224,7 +227,10 @@ def replay(prop, path):
   if c is None or c.replay is None or rp.get('witness') is None:
     print('no concrete input to replay (no-failing-input-found); the obligation above is the violation')
     return 1
-  ok, text = c.replay(rp['witness'])
+  wit = rp['witness']
+  if isinstance(wit, dict):
+    wit = dict(wit, _key=rp.get('key'), _obligation=rp.get('obligation'), _tier=rp.get('tier', 'quick'), _seed=rp.get('seed', 0), _prop=prop)
+  ok, text = c.replay(wit)
   ok = bool(ok)
   print(text)
   print('REPRODUCED on real code' if ok else 'not reproduced on real code')
